@@ -28,7 +28,7 @@ for f in ('bellatrix', 'capella', 'deneb'):
     EXTRA['eth2/beacon/%s:BeaconStateView.ProcessBlock' % f] = ['//@   assigns ghost(n_eng_notify), ghost(n_set_exec_header)']
 for k in ('eth2/beacon/common:StateTransition', 'eth2/beacon/common:PostSlotTransition'):
     EXTRA[k] = ['//@   assigns ghost(n_eng_notify), ghost(n_set_exec_header)']
-PROPS = {'eth2/beacon:StandardUpgradeableBeaconState.UpgradeMaybe': ' C14', 'eth2/beacon/common:ProcessHeader': ' C03'}
+PROPS = {'eth2/beacon:StandardUpgradeableBeaconState.UpgradeMaybe': ' C14', 'eth2/beacon/common:ProcessHeader': ' C03 C01'}
 # process_block_header's conditions (C03): slot, newer than the latest header, proposer index in range and expected, parent root, proposer not slashed
 PROPS['eth2/beacon/phase0:ProcessDeposits'] = ' C03'
 # process_operations: the block carries exactly min(MAX_DEPOSITS, eth1 deposit count - next deposit index) deposits
@@ -39,7 +39,9 @@ EXTRA['eth2/beacon/common:ProcessHeader'] = [
     '//@   ensures c03_newer: err == nil ==> !st_latest_err(state) && old(st_latest(state).Slot) < old(header.Slot)',
     '//@   ensures c03_proposer: err == nil ==> !st_vals_err(state) && reg_valid(st_vals(state), old(header.ProposerIndex)) && old(header.ProposerIndex) == expectedProposer',
     '//@   ensures c03_parent: err == nil ==> old(header.ParentRoot) == header_root(old(*st_latest(state)))',
-    '//@   ensures c03_not_slashed: err == nil ==> !v_slashed(reg_val(st_vals(state), old(header.ProposerIndex)))']
+    '//@   ensures c03_not_slashed: err == nil ==> !v_slashed(reg_val(st_vals(state), old(header.ProposerIndex)))',
+    '//@   assigns ghost(n_set_lhdr), ghost(set_lhdr)',
+    '//@   ensures c01_store: err == nil ==> n_set_lhdr == old(n_set_lhdr) + 1 && set_lhdr.Slot == old(header.Slot) && set_lhdr.ProposerIndex == old(header.ProposerIndex) && set_lhdr.ParentRoot == old(header.ParentRoot) && set_lhdr.BodyRoot == old(header.BodyRoot) && (forall k :: 0 <= k && k < 32 ==> set_lhdr.StateRoot[k] == 0)']
 EXTRA['eth2/beacon:StandardUpgradeableBeaconState.UpgradeMaybe'] = [
     '//@   requires s != nil && spec != nil',
     '//@   assigns s.BeaconState',
@@ -100,6 +102,42 @@ EXTRA['eth2/beacon/phase0:ProcessEpochJustification'] = [
     '//@   ensures c02_fin_3: ' + _PREM + ' && st_prevjust(state).Epoch < 4611686018427387904 && st_curjust(state).Epoch < 4611686018427387904 && jbit(set_jbits[0], 0) && jbit(set_jbits[0], 1) && jbit(set_jbits[0], 2) && st_curjust(state).Epoch + 2 == ' + _J + ' ==> n_set_fin == old(n_set_fin) + 1 && set_fin == st_curjust(state)',
     '//@   ensures c02_fin_2: ' + _PREM + ' && st_prevjust(state).Epoch < 4611686018427387904 && st_curjust(state).Epoch < 4611686018427387904 && !(jbit(set_jbits[0], 0) && jbit(set_jbits[0], 1) && st_curjust(state).Epoch + 1 == ' + _J + ') && !(jbit(set_jbits[0], 0) && jbit(set_jbits[0], 1) && jbit(set_jbits[0], 2) && st_curjust(state).Epoch + 2 == ' + _J + ') && jbit(set_jbits[0], 1) && jbit(set_jbits[0], 2) && (st_prevjust(state).Epoch + 2 == ' + _J + ' || (jbit(set_jbits[0], 3) && st_prevjust(state).Epoch + 3 == ' + _J + ')) ==> n_set_fin == old(n_set_fin) + 1 && set_fin == st_prevjust(state)',
     '//@   ensures c02_fin_none: ' + _PREM + ' && st_prevjust(state).Epoch < 4611686018427387904 && st_curjust(state).Epoch < 4611686018427387904 && !(jbit(set_jbits[0], 0) && jbit(set_jbits[0], 1) && st_curjust(state).Epoch + 1 == ' + _J + ') && !(jbit(set_jbits[0], 0) && jbit(set_jbits[0], 1) && jbit(set_jbits[0], 2) && st_curjust(state).Epoch + 2 == ' + _J + ') && !(jbit(set_jbits[0], 1) && jbit(set_jbits[0], 2) && st_prevjust(state).Epoch + 2 == ' + _J + ') && !(jbit(set_jbits[0], 1) && jbit(set_jbits[0], 2) && jbit(set_jbits[0], 3) && st_prevjust(state).Epoch + 3 == ' + _J + ') ==> n_set_fin == old(n_set_fin)']
+# end-of-epoch resets (C02): when they fire and with which epoch
+for n in ('ProcessEth1DataReset', 'ProcessSlashingsReset', 'ProcessRandaoMixesReset', 'ProcessHistoricalRootsUpdate'):
+    PROPS['eth2/beacon/phase0:' + n] = ' C02'
+EXTRA['eth2/beacon/phase0:ProcessEth1DataReset'] = [
+    '//@   assigns ghost(n_eth1_reset)',
+    '//@   ensures c02_reset: err == nil && spec != nil && epc != nil && spec.EPOCHS_PER_ETH1_VOTING_PERIOD != 0 ==> n_eth1_reset == old(n_eth1_reset) + ite(old(epc.NextEpoch.Epoch) % spec.EPOCHS_PER_ETH1_VOTING_PERIOD == 0, 1, 0)']
+EXTRA['eth2/beacon/phase0:ProcessSlashingsReset'] = [
+    '//@   assigns ghost(n_slash_reset), ghost(last_slash_reset)',
+    '//@   ensures c02_reset: err == nil ==> n_slash_reset == old(n_slash_reset) + 1 && last_slash_reset == old(epc.NextEpoch.Epoch)']
+EXTRA['eth2/beacon/phase0:ProcessRandaoMixesReset'] = [
+    '//@   assigns ghost(n_set_mix), ghost(last_set_mix_epoch), ghost(last_set_mix)',
+    '//@   ensures c02_reset: err == nil && state != nil ==> !st_mixes_err(state) && n_set_mix == old(n_set_mix) + 1 && last_set_mix_epoch == old(epc.NextEpoch.Epoch) && last_set_mix == mix_at(st_mixes(state), ite(old(epc.NextEpoch.Epoch) == 0, 0, old(epc.NextEpoch.Epoch) - 1))']
+EXTRA['eth2/beacon/phase0:ProcessHistoricalRootsUpdate'] = [
+    '//@   assigns ghost(n_hist_update)',
+    '//@   ensures c02_update: err == nil && spec != nil && spec.SLOTS_PER_EPOCH != 0 && spec.SLOTS_PER_HISTORICAL_ROOT / spec.SLOTS_PER_EPOCH != 0 ==> n_hist_update == old(n_hist_update) + ite(old(epc.NextEpoch.Epoch) % (spec.SLOTS_PER_HISTORICAL_ROOT / spec.SLOTS_PER_EPOCH) == 0, 1, 0)']
+_RG = '//@   assigns ghost(n_eth1_reset), ghost(n_slash_reset), ghost(last_slash_reset), ghost(n_set_mix), ghost(last_set_mix_epoch), ghost(last_set_mix), ghost(n_hist_update)'
+for f in ('phase0', 'altair', 'bellatrix', 'capella', 'deneb'):
+    EXTRA.setdefault('eth2/beacon/%s:BeaconStateView.ProcessEpoch' % f, []).append(_RG)
+for k in ('eth2/beacon/common:ProcessSlots', 'eth2/beacon/common:StateTransition'):
+    EXTRA.setdefault(k, []).append(_RG)
+# process_randao (C03: the reveal is the proposer's signature over the epoch under DOMAIN_RANDAO; C01: mix(epoch) ^= hash(reveal))
+PROPS['eth2/beacon/phase0:ProcessRandaoReveal'] = ' C03 C01'
+_MG = '//@   assigns ghost(n_set_mix), ghost(last_set_mix_epoch), ghost(last_set_mix)'
+EXTRA['eth2/beacon/phase0:ProcessRandaoReveal'] = [
+    _MG, '//@   assigns heap(CachedPubkey.decompressed)',
+    '//@   ensures c03_reveal: old(spec != nil && spec.SLOTS_PER_EPOCH != 0 && state != nil && epc != nil && epc.ValidatorPubkeyCache != nil && (forall r PcPtr :: {pctrig(r)} pctrig(r) && alloc(r) ==> pc_local(r.pub2idx, r.idx2pub, r.trustedParentCount) && pc_chain(r.parent, r, r.trustedParentCount, r.parent.trustedParentCount, len(r.parent.idx2pub))) && (forall r PcPtr :: {held(r.rwLock)} held(r.rwLock) == 0)) && err == nil ==> (let ep := st_slot(state) / spec.SLOTS_PER_EPOCH in !state_domain_err(state, common.DOMAIN_RANDAO, ep) && sig_valid(reveal) && (exists pk Pub48T :: pub_valid(pk) && bls_ok(pk, seq(signing_root(epoch_root(ep), state_domain(state, common.DOMAIN_RANDAO, ep))), reveal)))',
+    '//@   ensures c01_mix: spec != nil && spec.SLOTS_PER_EPOCH != 0 && state != nil && err == nil ==> (let ep := st_slot(state) / spec.SLOTS_PER_EPOCH in n_set_mix == old(n_set_mix) + 1 && last_set_mix_epoch == ep && (forall k :: {last_set_mix[k]} 0 <= k && k < 32 ==> last_set_mix[k] == mix_at(st_mixes(state), ep)[k] ^ sha256(seq(reveal))[k]))']
+for f in ('phase0', 'altair', 'bellatrix', 'capella', 'deneb'):
+    EXTRA.setdefault('eth2/beacon/%s:BeaconStateView.ProcessBlock' % f, []).append(_MG)
+for k in ('eth2/beacon/common:PostSlotTransition', 'eth2/beacon/common:StateTransition'):
+    EXTRA.setdefault(k, []).append(_MG)
+_LG = '//@   assigns ghost(n_set_lhdr), ghost(set_lhdr)'
+for f in ('phase0', 'altair', 'bellatrix', 'capella', 'deneb'):
+    EXTRA.setdefault('eth2/beacon/%s:BeaconStateView.ProcessBlock' % f, []).append(_LG)
+for k in ('eth2/beacon/common:PostSlotTransition', 'eth2/beacon/common:StateTransition', 'eth2/beacon/common:ProcessSlots', 'eth2/beacon/common:ProcessSlot'):
+    EXTRA.setdefault(k, []).append(_LG)
 # the per-fork epoch transitions (and what calls them) may record justification / finalization updates
 _JG = '//@   assigns ghost(n_set_prevjust), ghost(set_prevjust), ghost(n_set_curjust), ghost(set_curjust), ghost(n_set_fin), ghost(set_fin), ghost(n_set_jbits), ghost(set_jbits)'
 for f in ('phase0', 'altair', 'bellatrix', 'capella', 'deneb'):
